@@ -1278,6 +1278,116 @@ def loadMTextContent (tags : List (Nat × Str)) : Str :=
   let tail := ((tags.filter (fun t => t.1 = 1)).getLast?.map (·.2)).getD []
   escapeLineEndings (content ++ tail)
 
+/-! ### `scale_mtext_inline_commands(content, factor)`: the scaled numbers symbolic (final round) -/
+
+def isHeightChar (c : Char) : Bool := isDigit c || c == '.'
+
+/-- `float()` accepts a text over digits and "." iff it has a digit and at most one "." -/
+def validNumber (n : Str) : Bool := decide ((n.filter (· == '.')).length ≤ 1) && n.any isDigit
+
+inductive Seg where
+  | text (s : Str)
+  | scaled (n : Str)      -- replaced by `f"{float(n) * factor:.3g}"`
+  deriving Repr, DecidableEq
+
+/-- `content.split("\\H")` -/
+def splitH (s : Str) : List Str :=
+  match s with
+  | [] => [[]]
+  | [c] => [[c]]
+  | c :: d :: r2 =>
+    if c = '\\' ∧ d = 'H' then [] :: splitH r2
+    else match splitH (d :: r2) with
+      | [] => [[c]]
+      | p :: l => (c :: p) :: l
+termination_by s.length
+decreasing_by
+  all_goals simp_wf
+  all_goals omega
+
+/-- `_scale_leading_number(part, "\\H")` -/
+def scalePart (part : Str) : List Seg :=
+  let num := part.takeWhile isHeightChar
+  let rest := part.drop num.length
+  match rest with
+  | c :: _ =>
+    if c = 'x' then [.text ('\\' :: 'H' :: part)]
+    else [.text ['\\', 'H'], (if validNumber num then .scaled num else .text []), .text rest]
+  | [] => [.text ['\\', 'H'], (if validNumber num then .scaled num else .text []), .text rest]
+
+/-- `scale_mtext_inline_commands(content, factor)` with the scaled numbers symbolic -/
+def scaleSegs (s : Str) : List Seg :=
+  match splitH s with
+  | [] => []
+  | first :: parts => .text first :: (parts.map scalePart).flatten
+
+/-- the content with every scaled number put back: what the function leaves untouched -/
+def unscale : List Seg → Str
+  | [] => []
+  | .text s :: r => s ++ unscale r
+  | .scaled n :: r => n ++ unscale r
+
+
+/-! ### `MText.plain_text(split, fast)` and `MText.all_columns_plain_text(split)` (entity without linked columns; final round) -/
+
+/-- `MText.plain_text(split=False, fast)` -/
+def mtextPlainText (sp : Special) (fast : Bool) (text : Str) : Except PyErr Str :=
+  if fast then .ok (fastPlainMText sp text) else plainMTextStr sp text
+
+/-- `MText.plain_text(split=True, fast)` -/
+def mtextPlainLines (sp : Special) (fast : Bool) (text : Str) : Except PyErr (List Str) :=
+  if fast then .ok (splitNL (fastPlainMText sp text)) else plainMText sp text
+
+/-- `content.pop()` if the last line is empty -/
+def popEmptyLast (l : List Str) : List Str :=
+  match l.getLast? with
+  | some [] => l.dropLast
+  | _ => l
+
+/-- `MText.all_columns_plain_text(split)` for an entity without linked column entities: `hasColumns` is
+    `MText.has_columns` (embedded columns of DXF R2018); joined form, list form -/
+def allColumnsPlainText (sp : Special) (text : Str) : Str := fastPlainMText sp text
+
+def allColumnsPlainLines (sp : Special) (hasColumns : Bool) (text : Str) : List Str :=
+  if hasColumns then popEmptyLast (splitNL (fastPlainMText sp text)) else splitNL (fastPlainMText sp text)
+
+/-! ### caret pairs in `split_mtext_string` (final round) -/
+
+/-- no two adjacent carets -/
+def noDoubleCaret : Str → Bool
+  | [] => true
+  | [_] => true
+  | a :: b :: r => !(a == '^' && b == '^') && noDoubleCaret (b :: r)
+
+/-! ### the argument-free sub-grammar and its members on which the two decoders agree (final round) -/
+
+/-- a command letter without argument: escapes, paragraph break, stroke switches, `\X`, new column -/
+def isSimpleCmd (d : Char) : Bool :=
+  d == '\\' || d == '{' || d == '}' || d == 'P' || d == 'L' || d == 'l' || d == 'O' || d == 'o' || d == 'K' || d == 'k' ||
+  d == 'X' || d == 'N'
+
+/-- the argument-free sub-grammar: characters (also control characters), braces, `\\ \{ \}`, `\P`, the stroke
+    switches, `\X`, `\N`, a backslash at the end; no `%`, no command with arguments -/
+def argFree : Str → Bool
+  | [] => true
+  | c :: r =>
+    if c = '\\' then
+      match r with
+      | [] => true
+      | d :: r2 => isSimpleCmd d && argFree r2
+    else c != '%' && argFree r
+
+/-- ... and exactly the members on which the decoders agree: no control character other than LF, no `\N`,
+    no backslash at the end -/
+def argFreeAgree : Str → Bool
+  | [] => true
+  | c :: r =>
+    if c = '\\' then
+      match r with
+      | [] => false
+      | d :: r2 => d != 'N' && argFreeAgree r2
+    else (decide (32 ≤ c.toNat) || c == '\n') && argFreeAgree r
+
 /-! ### split_mtext_string for every size (after the fix: `size < 2` raises ValueError; before the
     fix `size = 1` never returned for content with a caret and `size = 0` returned `[]`) -/
 
